@@ -17,6 +17,7 @@ package mux
 // The documented Matcher contract (match.go): a rejecting matcher leaves its arguments unchanged.
 //@ fn mux.Matcher.Match
 //@   params recv, r, ctx
+//@   nopanic
 //@   requires r != nil && r.URL != nil && ctx != nil
 //@   modifies url.URL.Path: r.URL
 //@   modifies types.Context.params: ctx
@@ -260,6 +261,7 @@ package mux
 //
 //@ fn Router.serveContext
 //@   exceptional
+//@   callsonly [C07] mux.Router.serveContext$1, tree.Tree.Handler, types.Context.SetNode, http.ResponseWriter.Header, mux.cors.handle, mux.CallFunc
 //@   requires routerOK(r) && allSafe() && req != nil && req.URL != nil && req.Header != nil && ctx != nil && w != nil && hdrOf(w) != req.Header
 //@   xensures [C16] escapes-only-without-recovery: r.recoverFunc == nil
 //@   xensures [C16] no-recover-call: ncalls("mux.RecoverFunc") == old(ncalls("mux.RecoverFunc"))
@@ -273,6 +275,7 @@ package mux
 //@   atcall mux.cors.handle [C11] only-when-served: callresult("tree.Tree.Handler", 1, 2) && arg0 == r.cors && arg1 == callresult("tree.Tree.Handler", 1, 0) && arg2 == hdrOf(w) && arg3 == req
 //
 //@ fn Router.ServeHTTP
+//@   callsonly [C07] types.NewContext, mux.Router.serveContext, types.Context.Destroy
 //@   requires routerOK(r) && allSafe() && req != nil && req.URL != nil && req.Header != nil && w != nil && hdrOf(w) != req.Header
 //@   atcall mux.Router.serveContext [C07,C01] fresh-context: arg0 == r && arg1 == w && arg2 == req && arg3 != nil && len(arg3.params) == 0
 //@   atcall types.Context.Destroy [C16] release: arg0 == callresult("types.NewContext", 1, 0)
@@ -525,3 +528,31 @@ package mux
 //@   requires hs != nil && hs.tree != nil && treeOK(hs.tree) && allSafe() && sepOK() && lockFree(hs.tree)
 //@   callsonly [C14] strings.ToLower, tree.Tree.Remove
 //@   atcall tree.Tree.Remove [C14] lower: arg0 == hs.tree && arg1 == pure0("strings.ToLower", domain) && len(arg2) == 0
+
+// ---------------------------------------------------------------- group.go (C13, C16, C07)
+
+//@ pred groupOK(g *Group) = g != nil && g.call != nil &&
+//@      (forall k int :: 0 <= k && k < len(g.routers) ==> g.routers[k] != nil && routerOK(g.routers[k]) && g.routers[k].matcher != nil)
+//@ pred noParams(c *types.Context) = len(c.params) == 0 && (forall x string :: !in(x, c.params))
+//
+//@ fn Group.ServeHTTP$1
+//@   requires g != nil && g.recoverFunc != nil && w != nil
+//@   requires panicking() ==> panicval() != nil
+//@   ensures [C16] recovered: !panicking()
+//@   ensures [C16] once: old(panicking()) ==> ncalls("mux.RecoverFunc") == old(ncalls("mux.RecoverFunc")) + 1 &&
+//@        lastarg("mux.RecoverFunc", 2) == old(panicval()) && lastarg("mux.RecoverFunc", 0) == g.recoverFunc && lastarg("mux.RecoverFunc", 1) == w
+//@   ensures [C16] none: !old(panicking()) ==> ncalls("mux.RecoverFunc") == old(ncalls("mux.RecoverFunc"))
+//
+//@ fn Group.ServeHTTP
+//@   exceptional
+//@   requires groupOK(g) && allSafe() && r != nil && r.URL != nil && r.Header != nil && w != nil && hdrOf(w) != r.Header
+//@   callsonly [C07,C13] types.NewContext, types.Context.Destroy, mux.Matcher.Match, mux.Router.serveContext, types.Context.Reset, mux.Group.ServeHTTP$1, mux.CallFunc
+//@   atcall mux.Matcher.Match [C13] as-received: arg0 == g.routers[rangeindex + 1].matcher && arg1 == r && arg2 == callresult("types.NewContext", 1, 0) &&
+//@        r.URL.Path == old(r.URL.Path) && noParams(arg2)
+//@   atcall mux.Router.serveContext [C13] first-accepting: arg0 == g.routers[rangeindex + 1] && arg1 == w && arg2 == r && arg3 == callresult("types.NewContext", 1, 0)
+//@   atcall mux.CallFunc [C13] not-found: arg0 == g.call && arg1 == w && arg2 == r && arg3 == box(callresult("types.NewContext", 1, 0)) && arg4 == g.notFound &&
+//@        r.URL.Path == old(r.URL.Path) && noParams(callresult("types.NewContext", 1, 0))
+//@   atcall types.Context.Destroy [C07,C16] release: arg0 == callresult("types.NewContext", 1, 0)
+//@   xensures [C16] escapes-only-without-recovery: g.recoverFunc == nil || (exists k int :: 0 <= k && k < len(g.routers) && g.routers[k].recoverFunc == nil)
+//@   inv 1 [C13] bound: -1 <= rangeindex && rangeindex < len(g.routers) && groupOK(g) && allSafe()
+//@   inv 1 [C13] untouched: r.URL.Path == old(r.URL.Path) && noParams(callresult("types.NewContext", 1, 0))
